@@ -315,7 +315,9 @@ func (kr *KeyRegistry) LatestDataKey() (*pb.DataKey, error) {
 	validKey := func() (*pb.DataKey, bool) {
 		// Time difference from the last generated time.
 		diff := time.Since(time.Unix(kr.lastCreated, 0))
-		if diff < kr.opt.EncryptionKeyRotationDuration {
+		// A read-only registry has no file to persist a new key to, and a read-only DB writes
+		// nothing that would need one: keep the newest existing key however old it is.
+		if diff < kr.opt.EncryptionKeyRotationDuration || kr.opt.ReadOnly {
 			return kr.dataKeys[kr.nextKeyID], true
 		}
 		return nil, false
